@@ -1,5 +1,6 @@
 import OntVerif.Model.PreExec
 import OntVerif.Gen.PreExec
+import OntVerif.Gen.PreExecX
 /-!
 # C42 — Pre-execution never changes persisted state
 
@@ -53,6 +54,22 @@ theorem C42_batch_pointwise (p : Persist) (rs : List Request) : (preExecBatch p 
     simp only [preExecBatch, List.map]
     rw [C42_noop p r, ih]
 
+/-! ### two-phase commit: pre-executions between `ExecuteBlock` and `SubmitBlock` -/
+
+/-- `Add` = `ExecuteBlock` then `SubmitBlock` -/
+theorem C42_execute_then_submit (p : Persist) (prog : Prog) (root : Nat) :
+    submitBlock p (executeBlock p prog root) = (executeAndCommit p prog root).2 := by
+  unfold submitBlock executeBlock executeAndCommit
+  cases h : interp p prog ⟨[], [], []⟩ with
+  | mk o s => cases o <;> simp
+
+/-- **Any pre-executions in the window between `ExecuteBlock(b)` and `SubmitBlock(b, result)` are invisible**: what gets persisted
+is what the block executed to, exactly as if no pre-execution had happened (the execution result is a value; nothing a
+pre-execution does can reach it or the store). -/
+theorem C42_preexec_between_execute_and_submit (p : Persist) (prog : Prog) (root : Nat) (rs : List Request) :
+    submitBlock (rs.foldl (fun q r => (preExec q r).2) p) (executeBlock p prog root) = submitBlock p (executeBlock p prog root) := by
+  rw [C42_noop_sequence]
+
 /-! ### the theorem is not about an inert model: writes ARE visible inside the run, and the commit path DOES persist them -/
 
 /-- inside a pre-execution the program reads its own write (through cache and overlay) … -/
@@ -81,10 +98,41 @@ theorem C42_overlay_read (p : Persist) (ov : MemDB) (k : Key) :
 or `ClearAll` -/
 theorem C42_structural_no_store_write : OntVerif.Gen.PreExec.storeWriteCalls = [] := rfl
 
+/-- aliasing assumption, tied to the source: every function of `ledgerstore` / `overlaydb` that returns an `*OverlayDB` is a fresh
+allocation (`&OverlayDB{…}` or a call of such a function) — no pooling, no recycling of an overlay whose write set may still be
+referenced by an execution result -/
+theorem C42_structural_overlays_fresh :
+    OntVerif.Gen.PreExec.overlayProviders.all (fun e => e.2) = true ∧ OntVerif.Gen.PreExec.overlayProviders ≠ [] := by
+  decide
+
 /-- control: the same analysis started at `AddBlock` does find store writes (the detector is not blind), and the entry points
 were found -/
 theorem C42_structural_control : OntVerif.Gen.PreExec.controlWriteCalls ≠ [] ∧ "LedgerStoreImp.PreExecuteContractWithParam" ∈ OntVerif.Gen.PreExec.reachable
     ∧ "LedgerStoreImp.executeEip155Tx" ∈ OntVerif.Gen.PreExec.reachable ∧ "StateStore.HandleEIP155Transaction" ∈ OntVerif.Gen.PreExec.reachable := by
+  decide
+
+/-! ### the structural fact across package boundaries
+
+`Gen/PreExecX.lean` (factgen group PreExecX, regenerated per run): every non-test package of the module is parsed and the call graph is
+walked from the same entry points through the VM services, the native contracts and the EVM — exact resolution where a light
+syntactic type inference knows the receiver type, interface calls to every implementer (method-set cover by name), untyped receivers
+to every method of that name on a type the file can mention, dynamic calls (service maps, native method registry, opcode tables) to
+every address-taken function of the identical signature.  Every mention — call or method value — of a store-writing method is
+classified by the inferred receiver type. -/
+
+/-- in the whole reachable set (≈1700 functions) there is no call and no method value of `Put` / `Delete` / `Batch*` / `NewBatch` /
+`CommitTo` / `Write` / `ClearAll` on a persistent store (`PersistStore`, `LevelDBStore`, goleveldb `DB`, the four ledgerstore
+stores, `OverlayDB.CommitTo`), and none on a receiver whose type could not be inferred -/
+theorem C42_crosspkg_no_store_write :
+    OntVerif.Gen.PreExecX.typedStoreWrites = [] ∧ OntVerif.Gen.PreExecX.untypedWriteCalls = [] := ⟨rfl, rfl⟩
+
+/-- quality of the walk: every dynamic call site was resolved through its exact function signature (none by arity only), the
+execution engines are in the reachable set, and the same walk started at `AddBlock` does find persistent writes -/
+theorem C42_crosspkg_control :
+    OntVerif.Gen.PreExecX.dynamicCallSitesWithoutSignature = 0 ∧ 0 < OntVerif.Gen.PreExecX.dynamicCallSites
+      ∧ 0 < OntVerif.Gen.PreExecX.controlTypedWrites ∧ 1000 < OntVerif.Gen.PreExecX.reachableCount
+      ∧ "smartcontract/service/neovm.StoragePut" ∈ OntVerif.Gen.PreExecX.mustReach
+      ∧ "vm/evm.EVM.Call" ∈ OntVerif.Gen.PreExecX.mustReach := by
   decide
 
 /-! ### Non-vacuity -/
